@@ -266,3 +266,29 @@ SUBS = [
     Sub("pair_utils", check_pair_utils, strategy=lambda t: pair_case(t), budget=(1500, 15000)),
     Sub("nndist_random", check_nndist, strategy=lambda t: nndist_case(t), budget=(600, 6000)),
 ]
+
+
+# ---------------------------------------------------------------------------
+# thorough tier: coverage-guided fuzzing (atheris) of the pure-Python generators, same oracle inside the target
+# ---------------------------------------------------------------------------
+def fuzz_decode_lev(fdp):
+    alpha = "ACDEFGHIKL"[: fdp.ConsumeIntInRange(1, 6)]
+    L = fdp.ConsumeIntInRange(0, 9)
+    x = "".join(alpha[fdp.ConsumeIntInRange(0, len(alpha) - 1)] for _ in range(L))
+    return {"x": x, "alphabet": alpha}
+
+
+def fuzz_decode_nndist(fdp):
+    L = fdp.ConsumeIntInRange(1, 6)
+    seq = "".join(G.AA[fdp.ConsumeIntInRange(0, 19)] for _ in range(L))
+    ref = []
+    for _ in range(fdp.ConsumeIntInRange(0, 4)):
+        s = list(seq)
+        for _ in range(fdp.ConsumeIntInRange(0, 4)):
+            s[fdp.ConsumeIntInRange(0, L - 1)] = G.AA[fdp.ConsumeIntInRange(0, 19)]
+        ref.append("".join(s))
+    return {"seq": seq, "reference": ref, "maxdist": fdp.ConsumeIntInRange(1, 4)}
+
+
+FUZZ = {"levenshtein_neighbors": (fuzz_decode_lev, "lev_random"), "nndist_hamming": (fuzz_decode_nndist, "nndist_random")}
+FUZZ_RUNS = 160000
